@@ -588,3 +588,66 @@ Q(name="e2_frame_field_order", props=["C10"], func=r"frame\.rs[^>]*>::try_next$"
   bounds="every path of the decoder: for the 14 fixed-layout frame types the decoded variant is the one RFC 9000 §19 / the ack-frequency draft assign to the type value, and each field is the value of the read at its wire position (reads from the buffer are opaque, in program order); variable-layout frames (ACK, CRYPTO, STREAM, NEW_CONNECTION_ID, CLOSE, DATAGRAM, NEW_TOKEN) only contribute the type -> variant check",
   allowed_panics=r".",     # panic freedom of the decoder is not this query's subject (the reads' bounds checks are opaque here)
   replay=("frame_fixed_roundtrip_native", _fo_replay))
+
+
+# ------------------------------------------------------------------ C14 / C04: transport-parameter CID authentication (RFC 9000 §7.3)
+def tp_field(c, name):
+    """field index inside TransportParameters (declared through the apply_params!/make_struct! macros)"""
+    import os, e2
+    text = open(os.path.join(e2.REPO, "quinn-proto", "src", "transport_parameters.rs")).read()
+    a = text.index("macro_rules! apply_params")
+    b = text.index("macro_rules! make_struct")
+    names = re.findall(r"^\s+(\w+)\((\w+)\) = ", text[a:b], re.M)
+    names = [n for n, _ in names]
+    s = text.index("pub struct TransportParameters", b)
+    e = text.index("\n        }", s)
+    names += [n for n in re.findall(r"pub\(crate\) (\w+)\s*:", text[s:e])]
+    if name not in names:
+        raise Untranslatable("TransportParameters.%s not found" % name)
+    return names.index(name)
+
+
+U8 = ("bv", 8, False)
+
+
+def _cid_eq(c, p, a, b):
+    """ConnectionId equality (derived: len and all 20 bytes) between the places a and b, read in the path's final state"""
+    rd = lambda k, s: c.inp(k, s)
+    return and_(eq(rd(a + ".0", U8), rd(b + ".0", U8)), *[eq(rd(a + ".1[%d]" % i, U8), rd(b + ".1[%d]" % i, U8)) for i in range(20)])
+
+
+def hpp_pre(c):
+    return "true"
+
+
+def hpp_post(c, p):
+    st = p.p.state
+    rd = lambda k, s: c.inp(k, s)          # values on entry
+    me = lambda n: "*_1.%d" % c.field("connection/mod.rs", "Connection", n)
+    tp = lambda n: "_2.%d" % tp_field(c, n)
+    some = lambda k: eq(rd(k + "#discr", I64), bv(1))
+    auth1 = and_(some(tp("initial_src_cid")), _cid_eq(c, p, me("orig_rem_cid"), tp("initial_src_cid") + "@Some.0"))
+    auth2 = and_(some(tp("original_dst_cid")), _cid_eq(c, p, me("initial_dst_cid"), tp("original_dst_cid") + "@Some.0"))
+    a3, b3 = me("retry_src_cid"), tp("retry_src_cid")
+    auth3 = and_(eq(rd(a3 + "#discr", I64), rd(b3 + "#discr", I64)), imp(some(a3), _cid_eq(c, p, a3 + "@Some.0", b3 + "@Some.0")))
+    cl = p.called(r"is_client")
+    is_client = cl[0][2] if cl else "false"
+    if cl and not cl[0][2].startswith("|call:"):
+        return "false"
+    expected_ok = and_(auth1, imp(is_client, and_(auth2, auth3))) if cl else auth1
+    ok = eq(c.ex.read_key(st, "_0#discr", I64).t, bv(0))
+    applied = bool(p.called(r"set_peer_params"))
+    # accepted exactly when every CID the peer echoes matches what this endpoint saw on the wire; rejected
+    # parameters are never applied, accepted ones always are
+    if not cl:
+        # the side is consulted unless the first comparison already failed
+        return and_(not_(auth1), not_(ok), "false" if applied else "true")
+    return and_(eq(ok, expected_ok), eq(ok, "true" if applied else "false"))
+
+
+Q(name="e2_peer_params_cid_auth", props=["C14", "C04"], func=r"connection/mod\.rs:245:1[^>]*>::handle_peer_params$",
+  pure=[r"is_client"], allowed_panics=r"handle_error|capacity_overflow|alloc",
+  functions=["Connection::handle_peer_params", "ConnectionId == (derived, inlined: len + raw_eq of the 20 bytes)"],
+  pre=hpp_pre, post=hpp_post,
+  bounds="every stored orig_rem_cid / initial_dst_cid / retry_src_cid and every received initial_src_cid / original_dst_cid / retry_src_cid (Option discriminants, length byte and all 20 content bytes symbolic), both sides; set_peer_params and the error constructor opaque",
+  replay=("conn_peer_params_cid_auth_native", lambda m: [dict(server=s, which=w) for s in (0, 1) for w in range(0, 9)]))
